@@ -1,6 +1,8 @@
 package main
 
 import (
+	"sync"
+	"sync/atomic"
 	"errors"
 	"fmt"
 	"math/big"
@@ -159,6 +161,46 @@ func (s *allocState) exec(c *ctx, op string) string {
 			}
 			return fmt.Sprintf("n=%d bad=%s refusal=%s refill=%s", n, bad, refusal, refill)
 		})
+		c.emit(op, res)
+		return res
+	case "achurn": // achurn <k> <rounds>: k callers at once, each taking a block (no hint) and freeing its own, again and again
+		if s.a == nil {
+			return ""
+		}
+		k, rounds := atoi(f[1]), atoi(f[2])
+		var owned sync.Map
+		var bad atomic.Value
+		fs := make([]func() string, k)
+		for i := range fs {
+			fs[i] = func() string {
+				for r := 0; r < rounds && bad.Load() == nil; r++ {
+					b, err := s.a.Allocate(net.IPNet{})
+					if err != nil {
+						continue // the others hold everything right now
+					}
+					key := b.String()
+					if _, dup := owned.LoadOrStore(key, true); dup {
+						bad.Store(fmt.Sprintf("dup %s handed out while another caller holds it", fmtAllocRes(b, nil)[3:]))
+						return "done"
+					}
+					owned.Delete(key)
+					if err := s.a.Free(b); err != nil {
+						bad.Store(fmt.Sprintf("free of the caller's own block %s failed: %v", fmtAllocRes(b, nil)[3:], err))
+						return "done"
+					}
+				}
+				return "done"
+			}
+		}
+		res := "ok"
+		for _, st := range together(fs) {
+			if st == "HANG" {
+				res = "HANG"
+			}
+		}
+		if v := bad.Load(); v != nil {
+			res = v.(string)
+		}
 		c.emit(op, res)
 		return res
 	case "afrace": // afrace <k> <rounds>: one block handed out, k callers free it at once: exactly one succeeds
